@@ -115,16 +115,58 @@ pub fn main(a: &Args) -> i32 {
         let no_tx = |_: &Runner| None;
         let last_auto = |run: &Runner| Some(run.next_tx - 1);
         for t in tabs.clone() { call(&mut run, &tap, &mut marks, "create", last_auto, |run| run.auto(&Stmt::Create(t.def.clone()))); }
-        let n = r.random_range(12..32);
+        let profile = (seed as usize + 2 * h as usize) % 4;   // 0,1: mixed; 2: many short rolled-back transactions; 3: DDL (create / drop / re-create)
+        let n = if profile == 2 { r.random_range(30..60) } else { r.random_range(12..32) };
         let mut open: Vec<u32> = vec![];
+        let mut extra_live: Vec<Tab> = vec![];
+        let mut extra_names: Vec<String> = vec![];
         let mut pending: HashMap<u32, Vec<(usize, Stmt)>> = HashMap::new();
         for _ in 0..n {
             if run.hung { break; }
             let ti = r.random_range(0..tabs.len());
             let c = r.random_range(0..100);
+            if profile == 2 && open.is_empty() && c >= 12 && c < 80 {
+                // a short transaction: begin, one or two writes, mostly rolled back
+                if call(&mut run, &tap, &mut marks, "begin", no_tx, |run| run.begin(1)).is_ok() {
+                    let mut ins = vec![];
+                    for _ in 0..r.random_range(1..3) {
+                        let st = if r.random_bool(0.8) { rand_insert(&mut r, &mut tabs[ti], 1, 4, false) } else { rand_delete(&mut r, &tabs[ti], 1, 4) };
+                        if call(&mut run, &tap, &mut marks, "stmt", no_tx, |run| run.stmt(1, &st)).is_ok() { ins.push(st); }
+                    }
+                    let tx = run.sess_tx.get(&1).copied();
+                    match r.random_range(0..10) {
+                        0..=6 => { call(&mut run, &tap, &mut marks, "rollback", no_tx, |run| run.rollback(1)); }
+                        7 => { call(&mut run, &tap, &mut marks, "drop", no_tx, |run| run.drop_session(1)); }
+                        _ => { if call(&mut run, &tap, &mut marks, "commit", move |_| tx, |run| run.commit(1)).is_ok() { for st in ins { note_insert(&mut tabs[ti], &st); } } }
+                    }
+                }
+                continue;
+            }
+            if profile == 3 && c >= 60 && c < 90 {
+                // DDL: a table comes, gets rows, goes, and its name comes back
+                if extra_live.is_empty() {
+                    let name = ["x1", "x2"][r.random_range(0..2)];
+                    let mut t = rand_table(&mut r, name, false);
+                    t.updatable = false;
+                    if call(&mut run, &tap, &mut marks, "create", last_auto, |run| run.auto(&Stmt::Create(t.def.clone()))).is_ok() {
+                        if !extra_names.contains(&name.to_string()) { extra_names.push(name.to_string()); }
+                        let st = rand_insert(&mut r, &mut t, 0, 4, false);
+                        call(&mut run, &tap, &mut marks, "auto", last_auto, |run| run.auto(&st));
+                        extra_live.push(t);
+                    }
+                } else if r.random_bool(0.5) {
+                    let t = extra_live.pop().unwrap();
+                    call(&mut run, &tap, &mut marks, "dropddl", last_auto, |run| run.auto(&Stmt::Drop(t.def.name.clone())));
+                } else {
+                    let st = rand_insert(&mut r, &mut extra_live[0], 0, 4, false);
+                    call(&mut run, &tap, &mut marks, "auto", last_auto, |run| run.auto(&st));
+                }
+                continue;
+            }
             // a checkpoint while a transaction is open makes its uncommitted rows durable and drops its undo information
             // (finding CheckpointLeaksOpenTransaction): checkpoints only between transactions here
-            if (c < checkpoint_share && open.is_empty()) || (unsafe_ckpt && c < 15) {
+            // (a session that is open but has not written anything yet does not matter)
+            if (c < checkpoint_share && open.iter().all(|s| pending.get(s).map(|p| p.is_empty()).unwrap_or(true))) || (unsafe_ckpt && c < 15) {
                 call(&mut run, &tap, &mut marks, "flush", no_tx, |run| run.flush());
             } else if c < 45 {
                 let s = rand_insert(&mut r, &mut tabs[ti], 0, 4, false);
@@ -170,7 +212,8 @@ pub fn main(a: &Args) -> i32 {
         pts.retain(|k| *k <= total && *k >= 1);
         pts.sort(); pts.dedup();
         while pts.len() > max_points { let i = r.random_range(0..pts.len()); pts.remove(i); }
-        let names: Vec<String> = tabs.iter().map(|t| t.def.name.clone()).collect();
+        let mut names: Vec<String> = tabs.iter().map(|t| t.def.name.clone()).collect();
+        names.extend(extra_names.iter().cloned());
 
         // build the images in one pass over the tap log, open each in a child process (8 at a time)
         let mut files: HashMap<String, Vec<u8>> = HashMap::new();
